@@ -25,6 +25,17 @@ class UA:
     def __repr__(self):
         return 'UA(%s)' % self.tag
 
+    def _vf_eq(self, other):
+        """UpgradedAnnotation.__eq__: source_value() == source_value() (the empty annotation's is ``empty``)"""
+        c = sym.CTX()
+        if isinstance(other, UA):
+            return c.decide(z3.Or(z3.And(z3.Not(self.has), z3.Not(other.has)), z3.And(self.has, other.has, self.denotes == other.denotes)))
+        if isinstance(other, Inst) and other._cls.name == '_EmptyAnnotation':
+            return c.decide(z3.Not(self.has))
+        if isinstance(other, Inst) and any(getattr(k, 'name', None) == 'UpgradedAnnotation' for k in other._cls.mro):
+            raise EngineLimit('comparison of an input annotation token with a wrapper built by the code')
+        return False
+
     def __bool__(self):
         return True
 
